@@ -122,7 +122,9 @@ func c08RunHistory(events []c08Event, overTLS bool) (st c08State, clause, detail
 		in = append(in, e.Raw...)
 		ends = append(ends, len(in))
 	}
-	conn := seq.NewConn(seq.Script{Input: in})
+	// a read never crosses a request boundary, so that also a server that reads ahead
+	// through a buffer asks for request k+1 only after it has processed request k
+	conn := seq.NewConn(seq.Script{Input: in, Splits: ends[:max(len(ends)-1, 0)]})
 	// observe the live connection object after each request through the registry
 	type snap struct {
 		auth     bool
